@@ -216,10 +216,11 @@ func genF5(g *fw.GenCtx, em *emitter) {
 		d.quorum, d.retries = "101%", "1000"
 		addDir("director:random/.quorum=101%+.retries=1000(slow)", d, "pass", true)
 		em.flush()
-		if !g.Quick() {
-			// 2^31-1 retries x 10 ms = 248 days: only the framework watchdog can end this one (thorough tier only)
-			d.retries = "2147483647"
-			addDir("director:random/.quorum=101%+.retries=2147483647", d, "pass", true)
+		// the simulator bounds the retries of a director that can never choose a backend (10): 100000 or 2^31-1
+		// declared retries x 10 ms must not be slept through; without the bound only the framework watchdog ends these
+		for _, rt := range []string{"100000", "2147483647"} {
+			d.retries = rt
+			addDir("director:random/.quorum=101%+.retries=huge", d, "pass", true)
 			em.flush()
 		}
 	}
